@@ -49,4 +49,9 @@ def flushEvents (cap : Nat) (n : Nat) : Nat := if n ≥ cap then n else n + 1
 /-- rule dumps, oldest first (sizes irrelevant: identified by creation index) -/
 def writeDump (maxCount : Nat) (dumps : List Nat) (newId : Nat) : List Nat := prune maxCount dumps ++ [newId]
 
+/-- every listing of the dump directory that exists at some moment during one `write_all`: the old dumps go one at a time,
+oldest first, and only then the new one appears -/
+def dumpTrace (maxCount : Nat) (dumps : List Nat) (newId : Nat) : List (List Nat) :=
+  (List.range (dumps.length - (prune maxCount dumps).length + 1)).map (fun j => dumps.drop j) ++ [prune maxCount dumps ++ [newId]]
+
 end Gpa.Logs
